@@ -145,7 +145,8 @@ def run_driver(requests, timeout=900):
                        timeout=timeout)
     if p.returncode != 0:
         raise DriverError('driver exit %d: %s' % (p.returncode, p.stderr.decode()[-500:]))
-    lines = p.stdout.decode('utf-8').splitlines()
+    # split on '\n' only: str.splitlines() also splits on U+0085, U+2028, U+2029 …, which the driver echoes raw inside strings
+    lines = [ln for ln in p.stdout.decode('utf-8').split('\n') if ln != '']
     if len(lines) != len(requests):
         raise DriverError('driver answered %d of %d requests; stderr=%s' % (len(lines), len(requests), p.stderr.decode()[-500:]))
     out = []
@@ -224,8 +225,10 @@ def gen_threshold(rng, allow_int=True):
     if c < 0.92:
         x = math.nextafter(rng.choice(THRESH_DECIMALS), rng.choice([0.0, 2.0]))
         return (x if x <= 1.0 else math.nextafter(1.0, 0.0)), 'ulp'
-    if c < 0.96 and allow_int:
+    if c < 0.95 and allow_int:
         return 1, 'int1'
+    if c < 0.96 and allow_int:
+        return True, 'bool_true'         # bool is a subclass of int: True is the threshold 1
     return rng.uniform(0.001, 0.05), 'small'
 
 
